@@ -106,6 +106,17 @@ EXPORT errno_t _wmemcmp_s_chk(const wchar_t *dest, rsize_t dlen,
                                            (void *)dest, ESNULLP);
         return (RCNEGATE(ESNULLP));
     }
+    /* the element counts first: dlen/slen * sizeof(wchar_t) must not wrap */
+    if (unlikely(dlen > RSIZE_MAX_WMEM)) {
+        invoke_safe_mem_constraint_handler("wmemcmp_s: dlen exceeds max",
+                                           (void *)dest, ESLEMAX);
+        return (RCNEGATE(ESLEMAX));
+    }
+    if (unlikely(slen > RSIZE_MAX_WMEM)) {
+        invoke_safe_mem_constraint_handler("wmemcmp_s: slen exceeds max",
+                                           (void *)src, ESLEMAX);
+        return (RCNEGATE(ESLEMAX));
+    }
     CHK_DMAX_MEM_ZERO("wmemcmp_s")
     if (destbos == BOS_UNKNOWN) {
         CHK_DMAX_MEM_MAX("wmemcmp_s", RSIZE_MAX_MEM)
